@@ -118,3 +118,38 @@ def subsets(items):
     for r in range(len(items) + 1):
         for c in itertools.combinations(items, r):
             yield list(c)
+
+
+# -- values of non-exact Python types (subclasses of the JSON container / scalar types) -------------------
+# json.dumps accepts all of them; their reprs evaluate back to equal values (needed by replay files).
+
+import collections
+
+OrderedDict = collections.OrderedDict
+Counter = collections.Counter
+Point = collections.namedtuple("Point", "x y")
+
+
+class MyDict(dict):
+    def __repr__(self):
+        return "MyDict(%s)" % dict.__repr__(self)
+
+
+class MyList(list):
+    def __repr__(self):
+        return "MyList(%s)" % list.__repr__(self)
+
+
+class MyStr(str):
+    def __repr__(self):
+        return "MyStr(%s)" % str.__repr__(self)
+
+
+class MyInt(int):
+    def __repr__(self):
+        return "MyInt(%s)" % int.__repr__(self)
+
+
+SUBTYPE_ENV = {"OrderedDict": OrderedDict, "Counter": Counter, "Point": Point, "MyDict": MyDict, "MyList": MyList, "MyStr": MyStr, "MyInt": MyInt}
+SUBTYPE_VALUES = [OrderedDict([("b", 1), ("a", [2])]), OrderedDict(), Counter({"a": 2}), MyDict({"k": 1}), MyList([1, "a"]), Point(1, [2]),
+                  MyStr("s"), MyStr(""), MyInt(7), MyInt(0)]
